@@ -1,5 +1,5 @@
 -------------------------- MODULE MC_FsgSearchAbs --------------------------
-EXTENDS FsgSearchAbs
+EXTENDS FsgSearchAbs, Json
 G(n, s, f, arcs) == [n |-> n, start |-> s, final |-> f, arcs |-> arcs]
 \* linear, optional word, loop, null chain into the final state, unreachable final, alternatives
 \* sharing a word, start = final
@@ -14,4 +14,15 @@ GNullStart == G(3, 0, 2, {<<0,1,"",0>>, <<1,2,"a",0>>, <<0,2,"b",-1>>})
 DeltasMC == {0, -1}
 FamilySmall == {GLinear, GOptional, GLoop, GNullEnd}
 FamilyAll == {GLinear, GOptional, GLoop, GNullEnd, GNoFinal, GShared, GEmptyOK, GNullStart}
+(* export of every history the model reaches at a point where the API may be called (after a frame, after the  *)
+(* end of the utterance), for execution on the real result-extraction code                                     *)
+FamilySeq == <<GLinear, GOptional, GLoop, GNullEnd, GNoFinal, GShared, GEmptyOK, GNullStart>>
+GIndex == CHOOSE i \in DOMAIN FamilySeq : FamilySeq[i] = ug
+DumpHist == (phase \in {"idle", "done"} /\ Len(hist) > 1) =>
+               PrintT(<<"HIST", ToJson([g |-> GIndex, t |-> t, final |-> phase = "done",
+                                        hist |-> [i \in 2..Len(hist) |-> <<hist[i].arc[1], hist[i].arc[2], hist[i].arc[3],
+                                                                            hist[i].fr, hist[i].sc, hist[i].pred>>]])>>)
+GrammarsJson == ToJson([i \in DOMAIN FamilySeq |-> [n |-> FamilySeq[i].n, start |-> FamilySeq[i].start, final |-> FamilySeq[i].final,
+                                                    arcs |-> SetToSeq(FamilySeq[i].arcs)]])
+DumpGrammars == TLCGet("level") > 1 \/ PrintT(<<"GRAMMARS", GrammarsJson>>)
 =============================================================================
